@@ -448,6 +448,7 @@ def check(repo, run, tier):
     g(unitrules.overrides_delegate, repo, run, 'C18.R9', 'AwesomeyamlDumper')
     g(unitrules.wrapped_node_origin, repo, run, 'C18.R10')
     g(unitrules.node_init_table, repo, run, 'C18.R10')
+    g(unitrules.path_node_tables, repo, run, 'C18.R6')
     g.done()
 
 
